@@ -69,6 +69,9 @@ def check_depth_terms(prog, rep, impl, dfun, site, wt, rec, np_terms, entry):
 
     def push(t):
         # `halo = (0, 0) if C else (py, px)`: a choice between pairs is a pair of choices
+        if t[0] == 'dict' and sorted(k_[1] for k_, v_ in t[1] if k_[0] == 'const') == [0, 1] and len(t[1]) == 2:
+            byk_ = {k_[1]: v_ for k_, v_ in t[1]}
+            return ('tuple', (byk_[0], byk_[1]))          # {0: rows, 1: columns} is the pair (rows, columns)
         if t[0] == 'phi':
             a, b = push(t[2]), push(t[3])
             if a[0] == 'tuple' and b[0] == 'tuple' and len(a[1]) == len(b[1]):
